@@ -1428,7 +1428,16 @@ func (p *Proof) updateProofAdd(adds, cachedDelHashes []Hash, remembers []uint32,
 	// will be in the proof hashes.
 	newNodes = mergeSortedHashAndPos(newNodes, proofWithPos)
 
-	// Grab all the new hashes to be cached.
+	// Grab all the new hashes to be cached. The indexes are walked in
+	// ascending order so sort a copy of them.
+	remembers = copySortedFunc(remembers, func(a, b uint32) int {
+		if a < b {
+			return -1
+		} else if a > b {
+			return 1
+		}
+		return 0
+	})
 	remembersIdx := 0
 	addHashes := []Hash{}
 	for i := 0; i < len(adds); i++ {
